@@ -81,7 +81,6 @@ func (a *sendAnchors) missing() string {
 	chk("Engine.SendWithSender", a.eSWS)
 	chk("Engine.SendLocal", a.eSendLocal)
 	chk("Engine.send(dispatcher)", a.esend)
-	chk("Engine.isLocalMessage(role)", a.eIsLocal)
 	chk("Engine.BroadcastEvent", a.eBroadcast)
 	chk("Engine.Request", a.eRequest)
 	chk("Context.Send", a.cSend)
@@ -100,7 +99,22 @@ func (a *sendAnchors) missing() string {
 // edges of the dispatcher
 func (w *World) dispatcherEdges(a *sendAnchors, g *FG) (nilPid, nonNilPid, local, nonLocal, noRemote, hasRemote []Edge) {
 	nilPid, nonNilPid = w.nilEdges(g, "P1")
-	local, nonLocal = w.boolEdges(g, func(p string) bool { return strings.HasPrefix(p, "call:"+fname(a.eIsLocal)+"(") })
+	if a.eIsLocal != nil {
+		local, nonLocal = w.boolEdges(g, func(p string) bool { return strings.HasPrefix(p, "call:"+fname(a.eIsLocal)+"(") })
+	} else {
+		// the locality test written inline: engine address == pid.Address
+		local, nonLocal = g.CondEdges(func(v ssa.Value) (bool, bool) {
+			b, ok := v.(*ssa.BinOp)
+			if !ok || (b.Op != token.EQL && b.Op != token.NEQ) {
+				return false, false
+			}
+			x, y := w.pathOf(b.X), w.pathOf(b.Y)
+			if (x == "P0.address" && y == "P1.Address") || (x == "P1.Address" && y == "P0.address") {
+				return b.Op == token.EQL, true
+			}
+			return false, false
+		})
+	}
 	noRemote, hasRemote = w.nilEdges(g, "P0.remote")
 	return
 }
@@ -470,6 +484,10 @@ func checkC09(w *World, r *Report) {
 			only:   func(g *FG) []Edge { return intersectEdges(g, nonLocal, hasRemote) }})
 		// isLocalMessage compares the engine address with the PID's address
 		okL := true
+		if a.eIsLocal == nil {
+			_, _, l, _, _, _ := w.dispatcherEdges(a, g)
+			okL = len(l) > 0
+		}
 		for _, in := range w.insOf(a.eIsLocal) {
 			{
 				if ret, ok := in.(*ssa.Return); ok {
@@ -484,7 +502,11 @@ func checkC09(w *World, r *Report) {
 				}
 			}
 		}
-		r.Check(okL, "C09.R2", fname(a.eIsLocal)+":address-compare", "a PID is local exactly when its Address equals the engine's address", w.fnPos(a.eIsLocal),
+		locSite := w.fnPos(a.esend)
+		if a.eIsLocal != nil {
+			locSite = w.fnPos(a.eIsLocal)
+		}
+		r.Check(okL, "C09.R2", "(*actor.Engine).isLocalMessage:address-compare", "a PID is local exactly when its Address equals the engine's address", locSite,
 			"locality is decided by something else than pid.Address == engine address")
 	}
 	// R3: exported API with *PID parameters
@@ -773,6 +795,20 @@ func checkC10(w *World, r *Report) {
 		for _, in := range w.insOf(a.regGet) {
 			{
 				if lk, isL := in.(*ssa.Lookup); isL && w.pathOf(lk.X) == "P0.lookup" && w.pathOf(lk.Index) == "P1.ID" {
+					okG = true
+				}
+			}
+		}
+		if !okG && a.regGetByID != nil {
+			// get delegating to getByID(pid.ID), which looks up lookup[id]
+			byID := false
+			for _, in := range w.insOf(a.regGetByID) {
+				if lk, isL := in.(*ssa.Lookup); isL && w.pathOf(lk.X) == "P0.lookup" && w.pathOf(lk.Index) == "P1" {
+					byID = true
+				}
+			}
+			for _, ci := range w.callsIn(a.regGet, EvCall("getByID", a.regGetByID)) {
+				if c := ci.Common(); byID && w.pathOf(c.Args[0]) == "P0" && w.pathOf(c.Args[1]) == "P1.ID" {
 					okG = true
 				}
 			}
@@ -1433,9 +1469,11 @@ func checkC12(w *World, r *Report) {
 			okR := anyOf(E)
 			for _, ci := range w.callsIn(pr.restartFn, EvCall("Start", pr.start)) {
 				n := rg.idx[ci.(ssa.Instruction)]
-				key := fmt.Sprintf("ActorRestartedEvent:before-Start[%s]", guardDesc(w, rg, n))
-				r.Check(okR && rg.Before(E, n), "C12.R4", key, "every restart publishes ActorRestartedEvent before Start", w.pos(ci.Pos()),
-					"this restart path publishes no ActorRestartedEvent")
+				for _, pc := range pathClasses(w, rg, n) {
+					key := fmt.Sprintf("ActorRestartedEvent:before-Start[%s]", pc.desc)
+					r.Check(okR && pc.before(rg, E, n), "C12.R4", key, "every restart publishes ActorRestartedEvent before Start", w.pos(ci.Pos()),
+						"this restart path publishes no ActorRestartedEvent")
+				}
 			}
 			okX := anyOf(X)
 			for _, ci := range w.callsIn(pr.restartFn, EvCall("stop", pr.stopFn)) {
